@@ -556,6 +556,17 @@ def oracle_xml_text(case):
         ev, ex = [], e2
     if ex is not None and not isinstance(ex, gi.ParseError):
         return fail(case, 'only ParseError may escape the XML parser', 'ParseError or a stream', 'Other:' + type(ex).__name__ + ': ' + str(ex)[:200])
+    # the same document as a file holds it (in the encoding it declares, if Python can encode it so), and as a
+    # character source given to XMLParser directly: whatever the declaration says, nothing but ParseError escapes
+    data = xml_bytes(text) if not case.get('light') else None
+    for label, mk in ([('XMLParser(BytesIO(document))', lambda: gi.XMLParser(io.BytesIO(data)))] if data is not None else []) + \
+            ([('XMLParser(StringIO(document))', lambda: gi.XMLParser(io.StringIO(text)))] if not case.get('light') else []):
+        e4, x4 = drain(mk())
+        if x4 is not None and not isinstance(x4, gi.ParseError):
+            return fail(case, '%s: only ParseError may escape the XML parser' % label, 'ParseError or a stream', 'Other:' + type(x4).__name__ + ': ' + str(x4)[:200])
+        if label.startswith('XMLParser(StringIO') and (exc_desc(x4) != exc_desc(ex) or (ex is None and [cev(e) for e in e4] != [cev(e) for e in ev])):
+            return fail(case, 'XML(text) is XMLParser(StringIO(text)) iterated', exc_desc(ex) if ex is not None else trim([cev(e) for e in ev]),
+                        exc_desc(x4) if x4 is not None else trim([cev(e) for e in e4]))
     refp = IndependentExpat()
     # a lone surrogate is no character: the reference is given it the way such a code point stands in a UTF-8 file
     ref = refp.run(text.encode('utf-8', 'surrogatepass'))
@@ -1146,7 +1157,7 @@ def xml_bytes(text):
     if m:
         try:
             return text.encode(m.group(1))
-        except (LookupError, UnicodeError):
+        except (LookupError, ValueError):      # unknown name, unencodable character, a name that is none (NUL in it)
             pass
     return text.encode('utf-8')
 
@@ -1450,7 +1461,7 @@ def gen_cases(rng, n, big=1):
     cases = []
     for _ in range(n):
         r = rng.random()
-        if r < 0.34:
+        if r < 0.30:
             c = {'kind': 'html', 'text': G.soup(rng)}
             if rng.random() < 0.2:
                 c['sched'] = [rng.choice([1, 2, 3, 5, 7, 34, 35]) for _ in range(rng.randrange(1, 6))]
@@ -1459,9 +1470,14 @@ def gen_cases(rng, n, big=1):
             if len(c['text']) <= 60 and rng.random() < 0.3:
                 c['splits'] = True
             cases.append(c)
-        elif r < 0.40:
+        elif r < 0.32:
             doc = G.valid_html_doc(rng)
             cases.append({'kind': 'html', 'text': doc[:rng.randrange(len(doc) + 1)]})
+        elif r < 0.40:
+            c = {'kind': 'html', 'text': G.pressure_html(rng)}
+            if len(c['text']) <= 60:
+                c['splits'] = True
+            cases.append(c)
         elif r < 0.44:
             cases.append({'kind': 'html', 'text': ''.join(G.rand_char(rng) for _ in range(rng.randrange(0, 30)))})
         elif r < 0.47:
@@ -1492,6 +1508,7 @@ def gen_cases(rng, n, big=1):
             cases.append({'kind': 'syn-xml', 'script': gen_syn_xml(rng)})
     for _ in range(big):
         cases.append({'kind': 'html', 'text': G.big_html(rng, rng.choice([4090, 4200, 8300, 12400]))})
+        cases.append({'kind': 'html', 'text': G.boundary_html(rng, rng.choice([4096, 4096, 8192]))})
         doc = G.gen_xml_tree(rng)
         filler = {'k': 'e', 'name': ['', 'filler'], 'ns': [], 'attrs': [], 'kids': [
             {'k': 't', 'pieces': [['raw', 'é' * rng.randrange(1, 40)], ['raw', 'x' * rng.choice([4000, 4090, 8100])], ['ent', 'nbsp', '\xa0']]}]}
@@ -1515,7 +1532,7 @@ def prefix_cases(rng, ndocs):
                 continue
             for i in range(len(text) + 1):
                 if not in_attr_entity_zone(text[:i]):
-                    cases.append({'kind': 'xml-text', 'text': text[:i]})
+                    cases.append({'kind': 'xml-text', 'text': text[:i], 'light': True})
     return cases
 
 
@@ -1699,6 +1716,10 @@ def model_jobs(case):
         data = xml_bytes(text)
         if data is not None:
             plans.append((lambda: io.BytesIO(data), None))
+        if case.get('light'):
+            plans = [plans[len(text) % len(plans)]]      # every prefix of a document: one kind of source each
+        elif len(plans) == 3:
+            plans = [plans[0], plans[1 + len(text) % 2]]
         for mk, enc in plans:
             script, ev, ex, modelled = record_xml(mk, encoding=enc)
             jobs.append(('xml-recorded', script, xml_line(script) if modelled else None, outcome_wire(ev, ex), True))
@@ -1719,9 +1740,56 @@ def model_jobs(case):
 def script_stats(res, stream, script):
     nb = len([r for r in script['reads'] if r[0] == 't'])
     res.count('%s:batches:%s' % (stream, '0' if nb == 0 else '1' if nb == 1 else '2-9' if nb < 10 else '10+'))
-    for items in [r[1] for r in script['reads'] if r[0] == 't'] + [script['close']]:
+    batches = [r[1] for r in script['reads'] if r[0] == 't'] + [script['close']]
+    for items in batches:
         for it in items:
             res.count('%s:cb:%s' % (stream, it[0]))
+    if not stream.startswith('html'):
+        return
+    # shapes the tie should see often enough (counted per script)
+    shapes = set()
+    open_tags = []
+    for bi, items in enumerate(batches):
+        if items and bi == len(batches) - 1:
+            shapes.add('close-batch-makes-callbacks')
+        if items and bi + 1 < len(batches) and batches[bi + 1] and items[-1][0] == 'd' and batches[bi + 1][0][0] == 'd':
+            shapes.add('text-cut-at-batch-boundary')
+        if items and bi + 1 < len(batches) - 1 and batches[bi + 1] and items[-1][0] == 'd' and batches[bi + 1][0][0] in ('st', 'se', 'et', 'c', 'pi', 'decl'):
+            shapes.add('markup-begins-a-batch-after-text')
+        for it in items:
+            k = it[0]
+            if k in ('st', 'se'):
+                for n, _ in it[2]:
+                    if '{' in n or '}' in n:
+                        shapes.add('attr-name-with-brace')
+                    if ':' in n:
+                        shapes.add('attr-name-with-colon')
+                if '{' in it[1] or '}' in it[1] or ':' in it[1]:
+                    shapes.add('tag-name-with-brace-or-colon')
+            if k == 'se' and it[1] not in VOID:
+                shapes.add('selfclosing-nonvoid')
+                if it[1].lower() in [t.lower() for t in open_tags]:
+                    shapes.add('selfclosing-nonvoid-in-same-named-ancestor')
+            if k == 'st' and it[1] not in VOID:
+                if it[1].lower() in [t.lower() for t in open_tags]:
+                    shapes.add('starttag-in-same-named-ancestor')
+                open_tags.append(it[1])
+            elif k == 'et' and it[1] not in VOID:
+                low = [t.lower() for t in open_tags]
+                if it[1].lower() in low:
+                    i = len(low) - 1 - low[::-1].index(it[1].lower())
+                    if i != len(low) - 1:
+                        shapes.add('endtag-closes-several')
+                    del open_tags[i:]
+                else:
+                    if open_tags:
+                        shapes.add('endtag-without-match-closes-all')
+                    open_tags = []
+    if open_tags:
+        shapes.add('left-open-at-end')
+    res.count('%s:scripts' % stream)
+    for sh in shapes:
+        res.count('%s:shape:%s' % (stream, sh))
 
 
 def nontrivial_key(case):
